@@ -964,6 +964,21 @@ def np_concatenate(eng, st, args, kw, node):
     return Val.of_arr(acc)
 
 
+def np_pad(eng, st, args, kw, node):
+    """np.pad(a, ((0, n), (0, 0)), constant_values=v): append n constant rows (only this shape of call is modelled)."""
+    a = as_arr_or_none(args[0])
+    pw = args[1] if len(args) > 1 else kw.get("pad_width")
+    if a is None or a.ndim != 2 or pw is None or pw.tup is None or len(pw.tup) != 2 or any(t.tup is None or len(t.tup) != 2 for t in pw.tup):
+        return opaque("pad")
+    (b0, a0), (b1, a1) = [[eng.as_int(x) for x in t.tup] for t in pw.tup]
+    if not (is_lit(b0, 0) and is_lit(b1, 0) and is_lit(a1, 0)):
+        return opaque("pad")
+    cv = kw.get("constant_values")
+    fill = cv.get_num() if cv is not None else N(0)
+    ra = a.shape[0]
+    return Val.of_arr(Arr(2, (z3.simplify(ra + a0), a.shape[1]), lambda i, j: _ite(i < ra, a.elem(i, j), fill, "num"), "num"))
+
+
 def np_argmin(eng, st, args, kw, node, is_min=True):
     a = as_arr_or_none(args[0])
     if a is None:
@@ -1304,7 +1319,7 @@ NPFUNCS = {
     "concatenate": np_concatenate, "argmin": np_argmin, "argmax": np_argmax, "min": np_min, "max": np_max,
     "amin": np_min, "amax": np_max, "sum": np_sum, "unique": np_unique, "sort": np_sort, "argsort": np_argsort,
     "array": np_array, "asarray": np_array, "reshape": np_reshape, "isscalar": np_isscalar, "isreal": np_isreal,
-    "mod": np_mod, "spacing": np_spacing, "delete": np_delete, "squeeze": np_squeeze, "argwhere": np_argwhere,
+    "pad": np_pad, "mod": np_mod, "spacing": np_spacing, "delete": np_delete, "squeeze": np_squeeze, "argwhere": np_argwhere,
     "math.ceil": np_ceil, "math.floor": np_floor, "math.sqrt": uf1("sqrt", _sqrt_facts), "math.log": uf1("log", _log_facts),
 }
 
